@@ -90,12 +90,26 @@ def families(n, kmax=KMAX):
     return out
 
 
+# scale letters: the variant A payload re-expressed at other legal magnitudes (coordinates -> a * x + b, every edge weight w)
+SCALES = collections.OrderedDict(
+    [
+        ("S-9", (1e-9, 0.0, 1e-9)),  # everything 1e-9 times smaller
+        ("S-6", (1e-6, 0.0, 1e-6)),
+        ("S+6", (1e6, 0.0, 1e6)),
+        ("OFF", (0.2, 1e6, 3.0)),  # common offset / spread ~ 1e6
+        ("NEQ", (1e-7, 1.0, 1.0 + 1e-9)),  # points that differ relatively by ~1e-7; weights nearly but not exactly 1
+    ]
+)
+BIG_N = 120  # the large-size letter: a 120-point path under three overlapping bands of labels
+
 NESTED = ("brow", "eyebrow", "eye")  # variant C: names that are substrings of one another, not alphabetical
 
 
 def names_for(k, variant):
     if variant == "C":
         return tuple(NESTED[:k])
+    if variant in SCALES or variant == "L":
+        variant = "A"
     base = NAMES[:k]
     return tuple(base) if variant == "A" else tuple(reversed(base))
 
@@ -103,12 +117,13 @@ def names_for(k, variant):
 class Model(object):
     """reference labelled graph: points, set of edges (i<j), ordered (label, mask tuple) pairs."""
 
-    __slots__ = ("pts", "edges", "labels")
+    __slots__ = ("pts", "edges", "labels", "w")
 
-    def __init__(self, pts, edges, labels):
+    def __init__(self, pts, edges, labels, w=1.0):
         self.pts = pts
         self.edges = frozenset(edges)
         self.labels = tuple(labels) if labels is not None else None
+        self.w = float(w)  # the weight every edge carries in the adjacency matrix
 
     @property
     def n(self):
@@ -127,13 +142,13 @@ class Model(object):
         ren = {o: k for k, o in enumerate(idx)}
         edges = [(ren[i], ren[j]) for (i, j) in self.edges if keep[i] and keep[j]]
         labels = [(l, tuple(self.mask(l)[i] for i in idx)) for l in order]
-        return Model(self.pts[idx], edges, labels)
+        return Model(self.pts[idx], edges, labels, w=self.w)
 
     def covered(self, labels):
         return all(any(m[i] for _, m in labels) for i in range(self.n))
 
     def key(self):
-        return (self.pts.shape, self.pts.tobytes(), tuple(sorted(self.edges)), self.labels)
+        return (self.pts.shape, self.pts.tobytes(), tuple(sorted(self.edges)), self.labels, self.w)
 
 
 def read_graph(g):
@@ -150,6 +165,7 @@ def read_graph(g):
     labels = None
     if hasattr(g, "labels"):
         labels = tuple((l, tuple(bool(x) for x in np.asarray(g._labels_to_masks[l]).tolist())) for l in g.labels)
+    read_graph.weights = sorted(set(float(dense[i, j]) for (i, j) in pairs))  # of the graph read last
     return pts, edges, sym, labels, dense.shape
 
 
@@ -164,7 +180,9 @@ def compare(where, r, exp, cls, prefix="", strict_order=True):
     if ashape != (exp.n, exp.n):
         out.append(Failure(where, prefix + "edges", "adjacency shape %s for %d points" % (ashape, exp.n)))
     elif not sym or edges != exp.edges:
-        out.append(Failure(where, prefix + "edges", "expected %s got %s%s" % (sorted(exp.edges), sorted(edges), "" if sym else " (asymmetric)")))
+        out.append(Failure(where, prefix + "edges", "expected %s (weight %r) got %s%s" % (sorted(exp.edges), exp.w, sorted(edges), "" if sym else " (asymmetric)")))
+    elif read_graph.weights not in ([], [exp.w]):
+        out.append(Failure(where, prefix + "edge-weights", "every edge carries weight %r, result has weights %r" % (exp.w, read_graph.weights)))
     if exp.labels is not None:
         if labels is None:
             out.append(Failure(where, prefix + "labels", "result has no labels"))
@@ -185,7 +203,7 @@ def _lab(labels):
 
 def _digest_graph(r):
     pts, edges, sym, labels, _ = read_graph(r)
-    return (type(r).__name__, np.round(pts, 9).tolist(), sorted(edges), labels)
+    return (type(r).__name__, pts.tolist(), sorted(edges), read_graph.weights, labels)
 
 
 # ------------------------------------------------------------------------------------------------
@@ -223,7 +241,17 @@ def t_nonlinear(p, seed):
     return p + 0.4 * np.sin(1.3 * p[:, ::-1]) + 0.05 * p * p
 
 
-TRANSFORMS = collections.OrderedDict([("affine", t_affine), ("nonlinear", t_nonlinear)])
+TRANSFORMS = collections.OrderedDict(
+    [
+        ("affine", t_affine),
+        ("nonlinear", t_nonlinear),
+        # scale letters (element-wise, so T(x)[idx] == T(x[idx]) bit for bit)
+        ("scale1e-9", lambda p, seed: p * 1e-9),
+        ("scale1e6", lambda p, seed: p * 1e6),
+        ("offset1e7", lambda p, seed: p + 1e7),
+        ("near-identity", lambda p, seed: p * (1.0 + 1e-7)),
+    ]
+)
 
 
 def make_input(kind, pts):
@@ -347,6 +375,14 @@ class C15(Check):
                         out.append(("g", n, fam, eb, "B", 1))
                     if n <= 3:
                         out.append(("g", n, fam, path, "C", 1))
+                # scale letters on a small subset: n = 2 (every family) and n = 3 (1-2 label families), complete graph
+                if n == 2 or (n == 3 and len(fam) <= 2):
+                    for sv in SCALES:
+                        out.append(("g", n, fam, complete, sv, 1))
+        # the large-size letter
+        lo, mid, hi = (1 << 60) - 1, ((1 << 100) - 1) ^ ((1 << 40) - 1), ((1 << BIG_N) - 1) ^ ((1 << 80) - 1)
+        out.append(("g", BIG_N, (lo, mid, hi), -1, "L", 1))
+        out.append(("g", BIG_N, (hi | lo, mid), -1, "L", 1))
         return out
 
     def roots(self):
@@ -369,23 +405,35 @@ class C15(Check):
 
         _, n, fam, eb, var, maxdepth = root
         d = 3 if var == "B" else 2
-        pts = generic_points(n, d, self.seed, salt=("c15", var))
-        pairs = _pairs(n)
-        edges = [p for k, p in enumerate(pairs) if (eb >> k) & 1]
+        w = 1.0
+        if var == "L":
+            pts = lab_points(n, d, self.seed)
+        elif var in SCALES:
+            a, b, w = SCALES[var]
+            pts = a * generic_points(n, d, self.seed, salt=("c15", "A")) + b
+            if len(set(map(tuple, pts.tolist()))) != n:
+                raise HarnessError("scale letter %s collapses the payload" % var)
+        else:
+            pts = generic_points(n, d, self.seed, salt=("c15", var))
+        if eb < 0:
+            edges = [(i, i + 1) for i in range(n - 1)]
+        else:
+            edges = [p for k, p in enumerate(_pairs(n)) if (eb >> k) & 1]
         names = names_for(len(fam), var)
         masks = [tuple(bool((m >> i) & 1) for i in range(n)) for m in fam]
         l2m = OrderedDict((nm, np.array(m, dtype=bool)) for nm, m in zip(names, masks))
         if var != "B":
-            adj = np.zeros((n, n), dtype=int)
+            adj = np.zeros((n, n), dtype=int if w == 1.0 else float)
             for i, j in edges:
-                adj[i, j] = adj[j, i] = 1
+                adj[i, j] = adj[j, i] = 1 if w == 1.0 else w
             g = LabelledPointUndirectedGraph(pts.copy(), adj, l2m)
         else:
             g = LabelledPointUndirectedGraph.init_from_edges(pts.copy(), np.array(edges, dtype=int).reshape(-1, 2), l2m)
-        model = Model(pts, edges, list(zip(names, masks)))
+        model = Model(pts, edges, list(zip(names, masks)), w=w)
+        self.note("root-variant:%s" % var)
         # read-derive-read chains (see _chain_step): quick on the path roots of variants A and C, thorough on every
         # variant A root with n <= 3 and the variant C roots
-        chain = n <= 3 and var in ("A", "C") and (eb == _path_bits(n) or (self.tier != "quick" and var == "A"))
+        chain = n <= 3 and (var in SCALES or (var in ("A", "C") and (eb == _path_bits(n) or (self.tier != "quick" and var == "A"))))
         return {"kind": "g", "g": g, "model": model, "maxdepth": int(maxdepth), "chain": chain}
 
     def _build_labeller(self, root):
@@ -475,7 +523,10 @@ class C15(Check):
             out.append(("get", nm, "T"))
         out.append(("get-unknown", UNKNOWN, "T"))
         new = [x for x in NAMES if x not in names][0]
-        idxsets = [c for r in range(0, n + 1) for c in itertools.combinations(range(n), r)]
+        if n <= 4:
+            idxsets = [c for r in range(0, n + 1) for c in itertools.combinations(range(n), r)]
+        else:  # the large-size letter: structured index sets only
+            idxsets = [(), (0,), (n - 1,), tuple(range(0, n, 2)), tuple(range(n // 2, n)), tuple(range(n))]
         for idx in idxsets:
             out.append(("add", new, idx, "list", T))
         for idx in sorted(set([(), tuple(range(n)), (n - 1,), tuple(reversed(range(n)))])):
@@ -568,7 +619,7 @@ class C15(Check):
             sel = model.select([l])
             rest = [x for x in names if x != l]
             plan = [
-                ("get", lambda: g.get_label(l), Model(sel.pts, sel.edges, None), PointUndirectedGraph),
+                ("get", lambda: g.get_label(l), Model(sel.pts, sel.edges, None, w=sel.w), PointUndirectedGraph),
                 ("with", lambda: g.with_labels([l]), sel, LabelledPointUndirectedGraph),
                 ("without", lambda: g.without_labels(l), model.select(rest) if rest else None, LabelledPointUndirectedGraph),
             ]
@@ -606,14 +657,14 @@ class C15(Check):
         elif dkind == "add-existing":
             mask = tuple(i in darg for i in range(n))
             g2 = g.add_label(L, list(darg))
-            model2 = Model(model.pts, model.edges, [(l, mask if l == L else m) for l, m in model.labels])
+            model2 = Model(model.pts, model.edges, [(l, mask if l == L else m) for l, m in model.labels], w=model.w)
         elif dkind == "add-new":
             new = [x for x in NAMES if x not in model.names()][0]
             g2 = g.add_label(new, list(darg))
-            model2 = Model(model.pts, model.edges, list(model.labels) + [(new, tuple(i in darg for i in range(n)))])
+            model2 = Model(model.pts, model.edges, list(model.labels) + [(new, tuple(i in darg for i in range(n)))], w=model.w)
         elif dkind == "remove":
             g2 = g.remove_label(darg)
-            model2 = Model(model.pts, model.edges, [(l, m) for l, m in model.labels if l != darg])
+            model2 = Model(model.pts, model.edges, [(l, m) for l, m in model.labels if l != darg], w=model.w)
         elif dkind == "affine":
             from menpo.transform import Affine
 
@@ -625,14 +676,14 @@ class C15(Check):
             g2 = Affine(h).apply(g)
             want = model.pts.dot(h[:d, :d].T) + h[:d, d]
             got = np.asarray(g2.points)
-            if got.shape != want.shape or not np.allclose(got, want, atol=1e-9, rtol=0):
+            if got.shape != want.shape or not np.allclose(got, want, atol=1e-12 * max(1.0, float(np.abs(want).max())), rtol=0):
                 fails.append(Failure(where, "derived-points", "transformed group has points %s, expected %s" % (got.tolist(), want.tolist())))
                 return fails if verify else []
-            model2 = Model(got.copy(), model.edges, model.labels)
+            model2 = Model(got.copy(), model.edges, model.labels, w=model.w)
         elif dkind == "inplace":
             saved = g.points.copy()
             g.points[...] = saved * 1.5 + 0.25
-            g2, model2 = g, Model(saved * 1.5 + 0.25, model.edges, model.labels)
+            g2, model2 = g, Model(saved * 1.5 + 0.25, model.edges, model.labels, w=model.w)
         else:
             raise HarnessError("unknown derivation %r" % (op,))
         fails.extend(compare(where, g2, model2, LabelledPointUndirectedGraph, prefix="derived-"))
@@ -689,7 +740,7 @@ class C15(Check):
                 exp_exc = "any"
             else:
                 sel = model.select([op[1]])
-                exp = Model(sel.pts, sel.edges, None)
+                exp = Model(sel.pts, sel.edges, None, w=sel.w)
         elif kind in ("add", "add-existing"):
             idx = list(op[2])
             form = op[3]
@@ -718,11 +769,11 @@ class C15(Check):
             if not in_range:
                 exp_exc = IndexError  # one past either end of the index range / a mask of another length
             elif kind == "add":
-                exp = Model(model.pts, model.edges, list(model.labels) + [(op[1], mask)])
+                exp = Model(model.pts, model.edges, list(model.labels) + [(op[1], mask)], w=model.w)
             else:
                 # an existing name: that mask is replaced in place (order kept); a replacement that leaves a point
                 # without any label must be refused ("every point always carries at least one label", D27)
-                exp = Model(model.pts, model.edges, [(l, mask if l == op[1] else m) for l, m in model.labels])
+                exp = Model(model.pts, model.edges, [(l, mask if l == op[1] else m) for l, m in model.labels], w=model.w)
                 if not exp.covered(exp.labels):
                     exp, exp_exc = None, ValueError
             if not in_range:
@@ -734,7 +785,7 @@ class C15(Check):
             else:
                 rest = [(l, m) for l, m in model.labels if l != op[1]]
                 if rest and model.covered(rest):
-                    exp = Model(model.pts, model.edges, rest)
+                    exp = Model(model.pts, model.edges, rest, w=model.w)
                 else:
                     exp_exc = ValueError
         else:
@@ -779,7 +830,7 @@ class C15(Check):
                     orig = tuple(l for l in names if l in got_order)
                     cls_ = "request-order" if got_order == tuple(op[1]) else "original-order" if got_order == orig else "other-order"
                     self.note("with-perm:%s" % cls_)
-                    new_model = Model(exp.pts, exp.edges, [(l, dict(exp.labels).get(l)) for l in got_order]) if set(got_order) == set(exp.names()) else None
+                    new_model = Model(exp.pts, exp.edges, [(l, dict(exp.labels).get(l)) for l in got_order], w=exp.w) if set(got_order) == set(exp.names()) else None
                 else:
                     self.note("%s:ok-%dpts-%dlabels" % (kind, exp.n, len(exp.labels)))
                     new_model = exp
@@ -1038,6 +1089,17 @@ class C15(Check):
             "add:refused-IndexError",
             "add-existing:refused-IndexError",
             "size:zero-points-rejected",
+            "root-variant:S-9",
+            "root-variant:S-6",
+            "root-variant:S+6",
+            "root-variant:OFF",
+            "root-variant:NEQ",
+            "root-variant:L",
+            "commute:scale1e-9-LabelledPointUndirectedGraph",
+            "commute:scale1e6-TriMesh",
+            "commute:offset1e7-LabelledPointUndirectedGraph",
+            "commute:near-identity-LabelledPointUndirectedGraph",
+            "with:ok-%dpts-3labels" % BIG_N,
             "chain:copy",
             "chain:add-existing",
             "chain:add-new",
@@ -1105,6 +1167,8 @@ class C15(Check):
             "variant C (label names 'brow', 'eyebrow', 'eye': substrings of one another) is built for n <= 3 with the path edge set",
             "read-derive-read chains (read a label, derive by copy / add_label / remove_label / affine apply / in-place point edit, read again): quick on the path roots of variants A and C, thorough on every variant A root with n <= 3 and the variant C roots; not repeated in the hash-seed sweep",
             "add_label index forms are those numpy's mask[indices] = True accepts on the unchanged tree: list, int64 / int32 array, python int, boolean mask of the points' length; negative indices count from the end, one past either end (or a mask of another length) must raise IndexError; tuples are not letters (numpy reads a tuple as a multi-dimensional index: (0, 2) raises, () labels every point)",
+            "scale letters (coordinates x1e-9 / x1e-6 / x1e6, offset 1e6 over a spread of ~1, points differing relatively by 1e-7; every edge weight 1e-9 / 1e-6 / 1e6 / 3 / 1+1e-9) on n = 2 (every family) and n = 3 (1-2 label families) with the complete graph; every comparison stays exact (selection only re-indexes: the result at scale s is the reference computed from the scaled payload itself, edge weights included)",
+            "large-size letter: a %d-point path under 3 (2) overlapping bands of labels with structured index sets" % BIG_N,
             "[interp] a permuted with_labels request must give the right content deterministically; its label order is not judged",
             "[interp] without_labels ignoring an unknown label, and any request that selects no point raising, are accepted",
             "add_label with an existing name: the mask is replaced in place, refused (ValueError) iff a point would be left without a label (D27, fixed)",
